@@ -509,7 +509,14 @@ async fn connection(
         remote_id: [2u8; 16],
         conn_id: CONN_ID,
         meeting_token: [1, 2, 3, 4, 5, 6, 7],
-        peer_verifying_key: presented.clone(),
+        // the key the remote DECLARED when it opened the connection: for an allowed-peer token it is the
+        // expected key (the token type was resolved by matching it), whatever identity the answer then presents
+        peer_verifying_key: match c.tok {
+            Tok::ApP1 => fx.vk[Who::P1.idx()].clone(),
+            Tok::ApP2 => fx.vk[Who::P2.idx()].clone(),
+            Tok::ApLocal => fx.vk[Who::Local.idx()].clone(),
+            _ => presented.clone(),
+        },
     };
     let (rk, cr, qs, ps, ev) = (
         remote_key.clone(),
